@@ -276,7 +276,15 @@ fn emit_logs(idx: usize, n: u16) {
             Some(id)
         });
         if let Some(id) = id {
-            tracing::info!("{id}");
+            // every 5th line names its parent explicitly and is emitted from a foreign context
+            // (a detached root span, as a helper thread or a spawned task would have)
+            if with_rs(|rs| rs.log_ctr) % 5 == 0 {
+                let here = tracing::Span::current();
+                let detached = tracing::info_span!(parent: None, "detached");
+                detached.in_scope(|| tracing::info!(parent: &here, "{id}"));
+            } else {
+                tracing::info!("{id}");
+            }
         }
     }
 }
